@@ -167,7 +167,7 @@ def run(ctx):
         pin = rng.choice([None, str(page + 3), f"{page + 3}-{page + 5}", f"{page + 1}, {page + 9}"])
         # well-formed years: the whole accepted range 1600 .. next year, both ends included
         year = rng.choice([None, "1999", "2007", "1600", "1601", str(this_year), str(this_year + 1)])
-        paren = rng.choice([None, None, "per curiam", "holding that (a) applies"])
+        paren = rng.choice([None, None, "per curiam", "holding that (a) applies", "1964 amendments discussed", "2d Cir. decision below"])
         form = rng.choice(["full", "full", "short", "supra", "id", "journal", "parallel"])
         pre = rng.choice(["See ", "In ", ""])
         term = rng.choice([".", ";", ""])
